@@ -84,6 +84,12 @@ def _run(ev, work, thorough):
     step = 9 if not thorough else 3
     sample = cases[::step]
     ev.add_tlc("ColumnWriterMC export: write/read cases for the sanitized build (every %dth)" % step, cres, cases=len(sample))
+    # row counts around 64 with small page budgets: multi-page chunks where a page's and the chunk's row counts lie on
+    # different sides of a varint length boundary (the level-skip fast path is sized by them)
+    bigc, bres = CW.export_cases(work, CW.BIG, "sanbig")
+    bigc = [c for c in bigc if any(len(g["pages"]) > 1 for g in c["rgs"])][::(4 if not thorough else 1)]
+    ev.add_tlc("ColumnWriterMC export: multi-page write/read cases around 64 rows for the sanitized build", bres, cases=len(bigc))
+    sample = sample + bigc
     os.makedirs(os.path.join(work, "cwsan"), exist_ok=True)
     for i in range(0, len(sample), 100):
         jobs.append((root, work, "harness.checks.colwriter:replay_chunk", (i, sample[i:i + 100], os.path.join(work, "cwsan")),
